@@ -1,7 +1,7 @@
 CONSTANTS
-  MaxRolls = 4
-  Count = 2
-  MaxRestarts = 2
+  MaxRolls = 6
+  Count = 3
+  MaxRestarts = 3
   SharedHandOff = TRUE
 SPECIFICATION Spec
 INVARIANTS OneRotationAtATime QuiescentWindow InWindowOrGone
